@@ -71,9 +71,11 @@ def lattice_exports(chk, rng, n_pure, n_purif, nvmax, seed, budget=280):
             pts[i] = q
     for i in range(max(1, n_pure // 5)):           # and the far corner (tiny unnormalised weights)
         pts[-1 - i] = lattice.random_point(rng, nvmax=nvmax, nhmax=3, budget=budget, extreme=True)
+    if n_pure >= 6:                                # and the opposite corner (huge unnormalised weights)
+        pts[len(pts) // 2] = lattice.random_point(rng, nvmax=nvmax, huge=True)
     pf = lattice.PointsFile(pts)
     try:
-        r1 = tlc.run("RBM", constants={"TMax": 640, "Lanes": 16}, defs={"Archs": "{}", "Vals": "{1}"},
+        r1 = tlc.run("RBM", constants={"TMax": 1000, "Lanes": 16}, defs={"Archs": "{}", "Vals": "{1}"},
                      invariants=["WellDefined", "Marginal", "Partition", "Export"],
                      env={"POINTS_FILE": pf.path}, workers=WORKERS, heap=HEAP, timeout=1500, seed=seed)
     finally:
@@ -84,9 +86,11 @@ def lattice_exports(chk, rng, n_pure, n_purif, nvmax, seed, budget=280):
             qts[i] = lattice.random_purif_point(rng, nvmax=nvmax, nhmax=3, namax=3, budget=budget)
     for i in range(max(1, n_purif // 5)):
         qts[-1 - i] = lattice.random_purif_point(rng, nvmax=nvmax, nhmax=3, namax=3, budget=budget, extreme=True)
+    if n_purif >= 6:
+        qts[len(qts) // 2] = lattice.random_purif_point(rng, nvmax=nvmax, huge=True)
     pf = lattice.PointsFile(qts)
     try:
-        r2 = tlc.run("PurifRBM", constants={"TMax": 640, "Lanes": 16}, defs={"Archs": "{}", "Vals": "{1}"},
+        r2 = tlc.run("PurifRBM", constants={"TMax": 1000, "Lanes": 16}, defs={"Archs": "{}", "Vals": "{1}"},
                      invariants=["WellDefined", "Marginal", "PartialTrace", "Hermitian", "Diagonal", "TraceIsZ", "Export"],
                      env={"POINTS_FILE": pf.path}, workers=WORKERS, heap=HEAP, timeout=1500, seed=seed)
     finally:
